@@ -265,7 +265,7 @@ for _a in _ARMS:
     if not _a["parsed"]:
         continue
     _k = _a["idx"]
-    H("arm_%d" % _k, props=["C08", "C06"] if _a["times"] else ["C08"], arm=_k, expects_panic=(_a["when"] or _a["times"]), group="arms", covers=["COVER:end"], **_MACRO_COMMON)
+    H("arm_%d" % _k, props=["C08", "C06", "C09"] if _a["times"] else ["C08", "C09"], arm=_k, expects_panic=(_a["when"] or _a["times"]), group="arms", covers=["COVER:end"], **_MACRO_COMMON)
     if _a["times"]:
         H("rmw_%d" % _k, props=["C06"], arm=_k, group="arms", **_MACRO_COMMON)
 PRECHECKS = {"macros": macros_precheck}
@@ -512,3 +512,5 @@ VERUS["lock_nopoison"] = dict(props=["C04", "C05"], builder=verus_lock.build, fn
 
 H("c15_entry_macos", module="verif_arm64.rs", variant="macos", props=["C15", "C11", "C12", "C03"], fns=[(A64P, "apply_branch_patch"), (A64G, "maybe_emit_long_jump")], covers=["COVER:end", "COVER:long-form", "COVER:short-form"],
   shared={"C15.entry.macos.lands": ["C11"]})
+
+H("c05_no_guard_before_writable", module="verif_amd64.rs", props=["C05", "C12"], fns=[(AMD, "patch_and_guard"), (COM, "new"), (COM, "drop")], expects_panic=True, covers=[], covers_unreachable=["COVER:installed-despite-mprotect-failure"])
